@@ -234,7 +234,7 @@ fn make_pipeline_slow(ctl: &Arc<Ctl>, fail: Option<usize>, delays: bool, slow: O
     })
 }
 
-const STEP_TIMEOUT: Duration = Duration::from_millis(1500);
+const STEP_TIMEOUT: Duration = Duration::from_millis(5000);
 const BLOCK_PROBE: Duration = Duration::from_millis(15);
 
 /// Controlled run.  `sched` is a list of actor tokens: "w<k>" (one step of worker k),
